@@ -20,7 +20,7 @@ from fractions import Fraction
 from harness.core import import_cuqi, quiet, q, qv, pv, pm, close, vclose
 
 KERNELS = ["expMH", "expCWMH", "expPCN", "expMALA", "legMH", "legCWMH", "legPCN", "legMALA"]
-GUARD_NAN = {"expMH", "expCWMH", "expMALA", "legMALA"}
+
 
 
 # ----------------------------------------------------------------------------- small helpers
